@@ -30,6 +30,41 @@ def run(fx, rep, tier):
     rule_accept(fx, rep)
     rule_name(fx, rep)
     rule_table(fx, rep)
+    rule_after_bestmove(fx, rep, ex)
+
+
+def rule_after_bestmove(fx, rep, ex):
+    """C13-NOLOCK/after-bestmove. `setoption` may only *try* the state lock, so "every value can be set between searches"
+    needs the search thread to let go of the lock as soon as the GUI has its `bestmove`: a GUI sends the next game's options
+    right after it. Between the `best_move` report and the end of the search thread nothing may make a pass over the
+    transposition table (a sweep / reset / resize there holds the lock for a time that grows with `Hash`, and a `setoption`
+    arriving meanwhile is refused and never applied)."""
+    import pC14
+    n, ok = 0, True
+    for (_sbb, _st, cl) in pC05.spawned_closures(fx, ex):
+        if cl is None:
+            continue
+        bms = [(bb, t) for bb, t in cl.calls() if norm(callee_name(t) or "").endswith("::best_move")]
+        for (bb, t) in bms:
+            after = cl.reachable(t["target"]) if "target" in t else set()
+            for ab in sorted(after):
+                t2 = cl.blocks[ab]["term"]
+                if t2["k"] != "call":
+                    continue
+                cn = callee_name(t2)
+                cb = fx.body(cn) if cn else None
+                if cb is None:
+                    continue
+                n += 1
+                hits = pC14.table_pass_in(fx, fx.cone([cb.name]))
+                rep.obligation(not hits)
+                if hits:
+                    ok = False
+                    rep.violation("C13-NOLOCK", f"C13-NOLOCK/after-bestmove/{norm(cb.name).split('::')[-1]}", f"the search thread calls `{cb.name}` (line {t2.get('line')}) after reporting its move and before "
+                                  f"releasing the state lock; it contains {hits[0][1]}: while that pass runs a `setoption` is refused by try_lock and the value is never applied", {"fn": cl.name, "file": cl.file, "line": t2.get("line")})
+    if n == 0:
+        rep.notes.append("C13-NOLOCK: no in-crate call after the best_move report in the search thread (nothing to decide)")
+    rep.rule("C13-NOLOCK/after-bestmove", n, 0, ok, "no table pass between the bestmove report and the release of the state lock")
 
 
 def rule_table(fx, rep):
@@ -504,6 +539,10 @@ U = "src/engine/uci/mod.rs"
 O = "src/engine/uci/options.rs"
 TTF = "src/engine/transposition_table.rs"
 MUTANTS = [
+    {"name": "hard stop clamped between the overhead and the per-move maximum (seed C13-10a)", "expect": "C13-CONSUME",
+     "edits": __import__("shared_mutants").edits_from_patch("seeded/C13-10a/patch.diff")},
+    {"name": "the search thread sweeps stale entries out of the table after bestmove, still holding the lock (delivered as C13-9a; its timing-dependent demonstration was not confirmed)", "expect": "C13-NOLOCK/after-bestmove/sweep",
+     "edits": __import__("shared_mutants").edits_from_patch("engine/rules/fixtures/c13_sweep_after_bestmove.diff")},
     {"name": "table cleared in len.div_ceil(4)-sized chunks: chunk size 0 for the empty table (seed C13-6a)", "expect": "C13-TABLE",
      "edits": [(TTF, "        for i in 0..self.data.len() {\n            self.data[i] = None;\n        }\n\n        self.generation = 0;", "        let block_size = self.data.len().div_ceil(4);\n        for block in self.data.chunks_mut(block_size) {\n            block.fill(None);\n        }\n\n        self.generation = 0;")]},
     {"name": "Hash value equal to the configured one is not applied (seed C13-5a)", "expect": "C13-RANGE/hash-resize/skipped",
